@@ -138,10 +138,29 @@ def templates(cfg):
         return j >> p.mutate(p1=t.a, p2=u.x, p3=p.C.a, p4=p.C.x)
 
     T("join_then_rename_swap", join_then_rename, TU)
+    out += case_templates()
     return out
 
 
 # rejection clauses: (name, sources, builder) - the builder must raise the documented exception
+def case_templates():
+    """names that differ only in case are different columns (SQL engines compare names
+    case-insensitively, so they must be kept apart inside generated subqueries)"""
+    S3 = [("t", {"a": INT, "b": INT, "g": INT})]
+    base = lambda p, t: t >> p.rename({"a": "B"}) >> p.mutate(b=p.C.B * 2 + t.b) >> p.arrange(p.C.b.descending().nulls_last(), p.C.B.nulls_last(), t.g.nulls_last()) >> p.slice_head(2) >> p.alias("s")  # noqa: E731
+    out = []
+    out.append(Template("c09.case.subquery_summarize", S3, lambda p, t: base(p, t) >> p.summarize(x=p.C.B.sum(), y=p.C.b.sum()), props=("C09",), nmax=3))
+    out.append(Template("c09.case.subquery_filter", S3, lambda p, t: base(p, t) >> p.filter(p.C.b > p.C.B), props=("C09",), nmax=3))
+    out.append(Template("c09.case.subquery_window", S3, lambda p, t: base(p, t) >> p.mutate(w=p.C.b.max(partition_by=p.C.g) - p.C.B), props=("C09",), nmax=3))
+    out.append(Template("c09.case.no_subquery", S3, lambda p, t: t >> p.rename({"a": "B"}) >> p.mutate(b=p.C.B + 1) >> p.filter(p.C.b > 1) >> p.select(p.C.b, p.C.B), props=("C09",), nmax=3))
+    out.append(Template("c09.case.group_key", S3, lambda p, t: t >> p.rename({"g": "K"}) >> p.mutate(k=t.a) >> p.group_by(p.C.K) >> p.summarize(k=p.C.k.sum()) >> p.alias("z") >> p.filter(p.C.k > p.C.K), props=("C09",), nmax=3))
+    # the label that keeps a hidden column apart from its visible namesake inside a subquery must
+    # not collide with a real column (a, a_1)
+    S4 = [("t", {"a": INT, "a_1": INT, "g": INT})]
+    out.append(Template("c09.case.suffix_collides_with_column", S4, lambda p, t: t >> p.mutate(a=t.a + 100) >> p.arrange(t.g.nulls_last(), t.a.nulls_last(), t.a_1.nulls_last()) >> p.slice_head(2) >> p.alias(keep_col_refs=True) >> p.filter(t.a > 3) >> p.mutate(z=p.C.a_1 + t.a), props=("C09",), nmax=3))
+    return out
+
+
 def rejections():
     R = []
     R.append(("after_summarize", S, lambda p, t: t >> p.group_by(t.a) >> p.summarize(s=t.b.sum()) >> p.mutate(z=t.b), "ColumnNotFoundError"))
